@@ -141,6 +141,11 @@ func genUP4Sess(t *rapid.T, idx, peer int, alloc bool, precWide bool) (model.Op,
 		}
 		if precWide {
 			prec = rapid.OneOf(rapid.Uint32Range(0, 65534), rapid.SampledFrom([]uint32{0, 1, 65533, 65534})).Draw(t, "precw")
+		} else if rapid.IntRange(0, 2).Draw(t, "precjit") == 0 {
+			// the same filter under a slightly different precedence in another session: still one applications
+			// entry (installed under the precedence of its first user), which must go with its last user
+			// whatever that one's precedence; the offsets keep the order between different filters
+			prec += uint32(rapid.IntRange(1, 3).Draw(t, "precoff"))
 		}
 		up := model.PDR{ID: uint16(1 + 2*i), Prec: prec, Src: "access", FTEID: true, OHR: true, FAR: 1, QERs: ql, SDF: sdf}
 		if choose {
